@@ -119,6 +119,9 @@ def check(prop, tier, replay_case=None, replay_config=None):
                 specs.append({"prop": prop, "tier": tier, "seed": seed, "shard": i, "nshards": n, "config": c,
                               "so": so["ovf" if c == "ovf" else "rel"],
                               "out": os.path.join(outdir, f"{c}-{i:03d}.json")})
+                if plan.get("calendar_first"):
+                    # stdlib process-wide setting calendar.setfirstweekday() of the shard (0 = Monday ... 6 = Sunday)
+                    specs[-1]["calendar_first"] = plan["calendar_first"][i % len(plan["calendar_first"])]
                 if plan.get("tz"):
                     # process-local zone of the shard (TZ + tzset): naive values are resolved by the platform in it
                     specs[-1]["tz"] = plan["tz"][i % len(plan["tz"])]
